@@ -41,6 +41,22 @@ Section Proofs.
     rewrite E. simpl. split; [destruct (negb sf); reflexivity | reflexivity].
   Qed.
 
+  Lemma render_ok_fast_eq : forall sf lines r, render_ok_fast slack sf lines r = render_ok slack sf lines r.
+  Proof.
+    intros sf lines r. unfold render_ok_fast. destruct sf; cbn [negb]; [|reflexivity].
+    destruct ((usub1 (sl r) <? el r) && (N.of_nat (length lines) <? el r)) eqn:E; [|reflexivity].
+    apply andb_true_iff in E. destruct E as [E1 E2]. apply N.ltb_lt in E1. apply N.ltb_lt in E2.
+    unfold render_ok. cbn [negb]. symmetry. destruct (forallb _ _) eqn:F; [|reflexivity].
+    rewrite forallb_seq in F.
+    set (start := usub1 (sl r)) in *.
+    set (bad := N.max start (N.of_nat (length lines))).
+    assert (Hk : (N.to_nat (bad - start) < N.to_nat (el r - start))%nat) by (unfold bad; lia).
+    specialize (F _ Hk). unfold line_ok in F.
+    replace (start + N.of_nat (N.to_nat (bad - start))) with bad in F by (unfold bad; lia).
+    assert (Hn : nth_error lines (N.to_nat bad) = None) by (apply nth_error_None; unfold bad; lia).
+    rewrite Hn in F. discriminate F.
+  Qed.
+
   Lemma render_other_file : forall lines r, render_ok slack false lines r = true.
   Proof. reflexivity. Qed.
 
